@@ -25,7 +25,7 @@ KNOWN = os.path.join(VERIF, "known_findings.json")
 ALLOWED_AXIOMS = set()  # every property theorem is closed under the global context
 
 FORBIDDEN = re.compile(
-    r"\b(Admitted|admit|Axiom|Axioms|Parameter|Parameters|Conjecture|Hypothesis|Variable|"
+    r"\b(Admitted|admit|Axiom|Axioms|Parameter|Parameters|Conjecture|Conjectures|Hypothesis|Hypotheses|Variable|Variables|"
     r"Unset Guard Checking|bypass_check|type-in-type|impredicative-set|Admit Obligations|"
     r"native_compute)\b"
 )
@@ -75,7 +75,22 @@ def scan_forbidden():
             path = os.path.join(root, f)
             src = open(path).read()
             src = strip_coq_comments(src)
+            # Section nesting at every position: Variable/Hypothesis are legitimate only
+            # inside a Section (they are discharged at End and declare no axiom)
+            marks = [(m.start(), +1) for m in re.finditer(r"^\s*Section\s+\w+\s*\.", src, re.M)]
+            marks += [(m.start(), -1) for m in re.finditer(r"^\s*End\s+\w+\s*\.", src, re.M)]
+            marks.sort()
+
+            def depth_at(pos):
+                d = 0
+                for p, k in marks:
+                    if p < pos:
+                        d += k
+                return d
+
             for m in FORBIDDEN.finditer(src):
+                if m.group(0) in ("Variable", "Hypothesis", "Variables", "Hypotheses") and depth_at(m.start()) > 0:
+                    continue
                 line = src.count("\n", 0, m.start()) + 1
                 hits.append("%s:%d:%s" % (os.path.relpath(path, VERIF), line, m.group(0)))
     return hits
